@@ -27,7 +27,7 @@ RULE = (
     "all-keys, buffer size)."
 )
 ASSUMPTIONS = [
-    "the order in which the 254 left-over keys of all-keys mode are tried is implementation-defined: any left-over-key block of the first view that has one is accepted, file order within one key is required",
+    "the left-over keys of all-keys mode are tried 'most common byte first' (bytes filling aligned 4-byte groups of the decoded payload, as iter_beacon_config_blocks documents); that order is judged only in the dominant-key class (one candidate's key byte pads a whole 4096-byte block, the other candidates' key bytes fill no group, default buffer size); elsewhere any left-over-key block of the first view that has one is accepted, file order within one key is required",
     "filler contains no ff ff ff (it would add end-of-stub candidates to XorEncoded detection)",
 ]
 REQUIRED_MONITORS = ["model.block", "model.novalue", "constructors.agree", "repeat.other_keys", "XorEncodedFile.read.position"]
@@ -86,6 +86,10 @@ def check_case(case, ctx):
     payload, keys, allk, bs = case["payload"], case["keys"], case["allk"], case["bs"]
     views = [(n, v) for n, v in case["views"]]
     exp = expected(views, keys, allk)
+    if case.get("meta", {}).get("dominant") is not None and exp is not None and exp[0] == "any":
+        dom = [c for c in exp[1] if c[2] == case["meta"]["dominant"]]
+        if dom:
+            exp = ("one", dom[:1])
     before = contracts.evaluations["XorEncodedFile.read.position"]
     results = {}
     core.set_buffer_size(bs)
@@ -269,6 +273,35 @@ def gen_case(rng, tier, force_key=None):
             "again": keys is not None and rng.random() < 0.3}
 
 
+def gen_dominant(rng):
+    """All-keys mode, two candidate blocks under left-over keys: a short unpadded one under key A first in the file, a
+    fully padded one under key B > A after it.  B's byte fills ~1000 aligned groups, A's none: B has priority, in every
+    container."""
+    a = rng.choice([x for x in range(1, 200) if x not in (0x69, 0x2E)])
+    b = rng.choice([x for x in range(a + 1, 255) if x not in (0x69, 0x2E)])
+    short = P.rx1((tlv.short(1, 0) + tlv.short(2, 1111) + tlv.S(3, 2, rng.randbytes(4)) + tlv.S(26, 3, bytes(rng.randrange(0x41, 0x5B) for _ in range(40)))), a)
+    full = P.rx1((tlv.short(1, 8) + tlv.short(2, 2222)).ljust(4096, b"\0"), b)
+    fill = lambda n: bytes(rng.choice(b"ABCDEFGHIJKLMNOP") for _ in range(n))  # noqa: E731
+    body = fill(rng.randrange(0, 40)) + short + fill(rng.randrange(4, 40)) + full + fill(rng.randrange(0, 40))
+    # no aligned or unaligned run of four A bytes anywhere
+    assert bytes([a]) * 4 not in body
+    layout = rng.choice(["raw", "raw", "pe", "xorpe"])
+    meta = {"layout": layout, "decoys": 1, "near_boundary": False, "place": "dominant", "fill": "text", "dominant": bytes([b])}
+    if layout == "raw":
+        payload, views = body, [("raw", body)]
+    else:
+        img, info = P.build_pe(rng, arch=rng.choice(["x86", "x64"]), data=body, nsec=rng.randrange(1, 4))
+        if bytes([a]) * 4 in img:
+            return gen_dominant(rng)
+        if layout == "pe":
+            payload, views = img, [("raw", img)]
+        else:
+            payload, off = P.xorencode(img, rng.randbytes(4), stub=P.filler(rng, rng.randrange(0, 100)), marker=True)
+            views = [("xor", img), ("raw", payload)]
+    return {"payload": payload, "keys": rng.choice([None, [b"\x69"], [b"\x00", b"\x2e"]]), "allk": True, "bs": None, "views": views,
+            "hows": [rng.choice(["bytes", "file", "path"])], "meta": meta, "again": False}
+
+
 def _decoded_trailing(enc, off, plen):
     start = off + 8 + plen
     out = bytearray()
@@ -283,6 +316,7 @@ def plan(tier, seed):
     q = tier == "quick"
     shards = [{"kind": "mix", "n": 110 if q else 4000, "budget_s": 50 if q else 2400, "timeout_s": 300 if q else 5400} for _ in range(15)]
     shards.append({"kind": "allkeys256", "budget_s": 50 if q else 2400, "timeout_s": 300 if q else 5400})
+    shards[0]["dominant"] = 12 if q else 300
     return shards
 
 
@@ -300,6 +334,10 @@ def run_shard(shard, ctx):
                     "hows": ["bytes"], "meta": {"layout": "raw", "decoys": 1 if mode == 2 else 0, "near_boundary": True, "place": "key-sweep", "fill": "random"}}
             check_case(case, ctx)
         return
+    for _ in range(shard.get("dominant", 0)):
+        if ctx.out_of_time():
+            break
+        check_case(gen_dominant(rng), ctx)
     for _ in range(shard["n"]):
         if ctx.out_of_time():
             break
